@@ -148,6 +148,12 @@ class PipeRelay(Relay):
         if error is not None:
             raise error
 
+    @staticmethod
+    def _decode_output(*outputs):
+        # The sub-process output arrives as bytes and may not be valid UTF-8.
+        return [out.decode('utf-8', 'replace') if isinstance(out, bytes)
+                else out for out in outputs]
+
     def raise_error(self, status, stdout, stderr):
         """This method may be over-ridden by sub-classes if you need to control
         how the relay error is generated. By default, the error raised is a
@@ -169,9 +175,8 @@ class PipeRelay(Relay):
                  :class:`~slimta.relay.PermanentRelayError`
 
         """
+        stdout, stderr = self._decode_output(stdout, stderr)
         error_msg = stdout.rstrip() or stderr.rstrip() or 'Delivery failed'
-        if isinstance(error_msg, bytes):
-            error_msg = error_msg.decode('utf-8')
         if self._permanent_error_pattern.match(error_msg):
             reply = Reply('550', error_msg)
             raise PermanentRelayError(error_msg, reply)
@@ -210,6 +215,7 @@ class MaildropRelay(PipeRelay):
         super(MaildropRelay, self).__init__(args, timeout)
 
     def raise_error(self, status, stdout, stderr):
+        stdout, stderr = self._decode_output(stdout, stderr)
         error_msg = 'Delivery failed'
         if stdout.startswith('maildrop: '):
             error_msg = stdout[10:].rstrip()
@@ -249,6 +255,7 @@ class DovecotLdaRelay(PipeRelay):
         super(DovecotLdaRelay, self).__init__(args, timeout)
 
     def raise_error(self, status, stdout, stderr):
+        stdout, stderr = self._decode_output(stdout, stderr)
         error_msg = stdout.rstrip() or stderr.rstrip() or 'LDA delivery failed'
         if status == self.EX_TEMPFAIL:
             reply = Reply('450', error_msg)
